@@ -161,6 +161,47 @@ def shapes(tier):
     return out
 
 
+# --------------------------------------------------------------------------------------
+# engine B: two representations that share ONE KnotVector object clean to the same minimal form, independently of each other
+# --------------------------------------------------------------------------------------
+def task_shared():
+    from ..env import knotspace
+    fn = "curves.Curve.clean"
+    out = []
+    for p in (1, 2, 3):
+        base = [F(0)] * (p + 1) + [F(1)] + [F(3)] * (p + 1)                         # minimal for generic points
+        fine = sorted(base + [F(1)] * (p - 1) + [F(2)] + [F(1, 2)] * min(p, 2))      # redundant copies / knots
+        X = [F((-1) ** i * (i + 1), 2) for i in range(len(base) - p - 1)]
+        Y = [F(i * i - 1, 3) for i in range(len(base) - p - 1)]
+        T = spec.refine_matrix(base, p, fine, p)
+        Xf = [sum(T[i][j] * X[j] for j in range(len(X))) for i in range(len(T))]
+        Yf = [sum(T[i][j] * Y[j] for j in range(len(Y))) for i in range(len(T))]
+        kv = knotspace.KnotVector(list(fine))
+        cx, cy = curves.Curve(kv, list(Xf)), curves.Curve(kv, list(Yf))
+        bad = None
+        try:
+            cx.clean()
+            if tuple(cy.knotvector) != tuple(fine) or list(cy.ctrlpoints) != Yf:
+                bad = "cleaning one curve changed the other (built from the same KnotVector object): knots %s" % (tuple(map(str, cy.knotvector)),)
+            else:
+                cy.clean()
+                for c, Q, nm in ((cx, X, "first"), (cy, Y, "second")):
+                    if tuple(c.knotvector) != tuple(base) or list(c.ctrlpoints) != Q:
+                        bad = "%s curve cleans to knots %s / points %s, minimal form is %s / %s" % (nm, tuple(map(str, c.knotvector)), list(map(str, c.ctrlpoints)), tuple(map(str, base)), list(map(str, Q)))
+                        break
+                if not bad:
+                    curves.Curve(kv, list(Xf))       # the shared object is still the fine vector: building a third curve on it works
+        except Exception as e:
+            bad = "%s: %s" % (type(e).__name__, str(e)[:120])
+        out.append(ob("%s:shared-knotvector-object[p=%d]" % (fn, p), fn, FAILED if bad else PROVED, "B", "concrete", 0.0,
+                      bad or "two refined representations on one KnotVector object clean independently to the minimal knot vector and control points",
+                      dict(kind="c14.shared", p=p) if bad else None))
+    return out + [{"_stats": dict(cases=len(out))}]
+
+
+task_shared.contract_fn = "curves.Curve.clean"
+
+
 def tasks(tier, seed):
     ts = []
     for p, cells in shapes(tier):
@@ -168,10 +209,14 @@ def tasks(tier, seed):
             ts.append((task_clean, (p, cells, variant, tier)))
     for p, cells in ((1, (0, 0, 0)), (2, (0, 0, 0)), (1, (0, 1, 0)), (2, (0, 2, 0))):
         ts.append((task_strict, (p, cells, 0)))
+    ts.append((task_shared, ()))
     return ts
 
 
 def replay(o):
+    if (o.get("witness") or {}).get("kind") == "c14.shared":
+        r = [x for x in task_shared() if "id" in x and x["id"].endswith("[p=%d]" % o["witness"]["p"])][0]
+        return r["status"] == FAILED, "both curves clean to the minimal form; the other curve is untouched", r["detail"]
     w = o["witness"]
     p, cells, variant = w["p"], tuple(w["cells"]), w["variant"]
     U = vec(p, cells, variant)
